@@ -313,6 +313,10 @@ type alphabet struct {
 	localOf  map[string]int // any spelling -> class
 	domainOf map[string]int
 	feat     string
+	feats    map[string]bool
+	// the first two domain / local-part classes are a pair of different names that an over-eager
+	// normalisation would merge (see addTwins)
+	twinD, twinL bool
 }
 
 // addr is an address class; null is the empty reverse-path.
@@ -380,6 +384,14 @@ func genAlphabet(p *prng.R) *alphabet {
 		usedD[u] = true
 		a.domains = append(a.domains, mkDomain(p, labels))
 	}
+	a.feats = feats
+	a.index()
+	return a
+}
+
+// index (re)builds the reverse maps and the feature string.
+func (a *alphabet) index() {
+	a.localOf, a.domainOf = map[string]int{}, map[string]int{}
 	for i, l := range a.locals {
 		for _, s := range l.sp {
 			a.localOf[s.s] = i
@@ -391,13 +403,89 @@ func genAlphabet(p *prng.R) *alphabet {
 			a.domainOf[s.s] = i
 		}
 	}
-	ks := make([]string, 0, len(feats))
-	for k := range feats {
+	ks := make([]string, 0, len(a.feats))
+	for k := range a.feats {
 		ks = append(ks, k)
 	}
 	sortStrings(ks)
 	a.feat = strings.Join(ks, "+")
-	return a
+}
+
+// Pairs of labels that are DIFFERENT names (IDNA2008, non-transitional; RFC 6532 local parts) but
+// that an over-eager normalisation merges: full case folding / IDNA2003 mapping (sharp s -> "ss",
+// final sigma -> sigma) or accent stripping. None of the letters has a simple upper-case mapping
+// that round-trips to something else, so the spelling generator (caseFlip) leaves them alone.
+var twinLabels = [][2]string{
+	{"fass", "faß"}, {"strasse", "straße"}, {"gross", "groß"}, {"masse", "maße"}, {"weiss", "weiß"}, {"fussball", "fußball"},
+	{"λογοσ", "λογος"}, {"οδοσ", "οδος"}, {"κοσμοσ", "κοσμος"},
+	{"resume", "résumé"}, {"zurich", "zürich"}, {"sao", "são"},
+}
+
+// addTwins replaces the first two domain classes (and, less often, the first two local-part classes)
+// by such a pair, drawn from a PRNG stream of its own. The two stay distinct classes: a rule for one
+// must not catch the other. Returns what was planted.
+func (a *alphabet) addTwins(p *prng.R) (domains, locals bool) {
+	pick := func() ([2]string, string) {
+		tw := prng.Pick(p, twinLabels)
+		pre := ""
+		for n := p.Weighted([]int{3, 1, 1}); n > 0; n-- {
+			pre += string(prng.Pick(p, asciiLower))
+		}
+		if p.Bool() {
+			tw[0], tw[1] = tw[1], tw[0]
+		}
+		return [2]string{pre + tw[0], pre + tw[1]}, pre
+	}
+	if p.Chance(2, 5) && len(a.domains) >= 2 {
+		tw, _ := pick()
+		var tail []string
+		if p.Chance(2, 3) {
+			for {
+				l := genLabel(p, map[string]bool{})
+				if l == canonKeyLocal(l) && !strings.HasPrefix(l, "-") && !strings.HasSuffix(l, "-") {
+					tail = append(tail, l)
+					break
+				}
+			}
+		}
+		ok := true
+		for _, d := range a.domains[2:] {
+			for _, t := range tw {
+				if d.canon == strings.Join(append([]string{t}, tail...), ".") {
+					ok = false
+				}
+			}
+		}
+		if ok {
+			for i, t := range tw {
+				a.domains[i] = mkDomain(p, append([]string{t}, tail...))
+			}
+			a.twinD = true
+			a.feats["twin-domains"] = true
+			domains = true
+		}
+	}
+	if p.Chance(1, 5) && len(a.locals) >= 2 {
+		tw, _ := pick()
+		ok := true
+		for _, l := range a.locals[2:] {
+			if l.canon == tw[0] || l.canon == tw[1] {
+				ok = false
+			}
+		}
+		if ok {
+			for i, t := range tw {
+				a.locals[i] = mkLocal(p, t)
+			}
+			a.twinL = true
+			a.feats["twin-locals"] = true
+			locals = true
+		}
+	}
+	if domains || locals {
+		a.index()
+	}
+	return
 }
 
 // spell renders an address class with chosen spelling indexes; returns the kinds used.
